@@ -252,6 +252,19 @@ def _to_pretty_xml(xml_item):
     return re.sub(r'>( *[\r\n]+)+( *)<', r'>\n\2<', pretty_result)
 
 
+def _is_element(node, name):
+    """
+    Return whether a child node of an IMETHODRESPONSE or METHODRESPONSE element
+    in the parsed tuple tree is the child element with that name.
+
+    Child elements are represented as tuple(name, attributes, children), while
+    PARAMVALUE child elements are already unpacked into tuple(name, type,
+    value). The name of an output parameter may be the same as the name of a
+    child element (e.g. "ERROR"), so the names alone do not tell them apart.
+    """
+    return node[0] == name and isinstance(node[1], dict)
+
+
 def _iparam_propertylist(property_list):
     """
     Validate property_list input parameter and return it as a tuple/list,
@@ -2012,7 +2025,7 @@ class WBEMConnection:  # pylint: disable=too-many-instance-attributes
         # with output parameters.
 
         # Check for failed operation
-        if tup_tree and tup_tree[0][0] == 'ERROR':
+        if tup_tree and _is_element(tup_tree[0], 'ERROR'):
             # The operation failed
             err = tup_tree[0]
             code = int(err[1]['CODE'])
@@ -2030,7 +2043,7 @@ class WBEMConnection:  # pylint: disable=too-many-instance-attributes
         return_value = False
         out_param_names = []
         for child_node in tup_tree:
-            if child_node[0] == 'IRETURNVALUE':
+            if _is_element(child_node, 'IRETURNVALUE'):
                 return_value = True
             else:
                 # The PARAMVALUE nodes are already unpacked
@@ -2297,7 +2310,7 @@ class WBEMConnection:  # pylint: disable=too-many-instance-attributes
         # At this point we have an optional RETURNVALUE and zero or
         # more PARAMVALUE elements representing output parameters.
 
-        if tup_tree and tup_tree[0][0] == 'ERROR':
+        if tup_tree and _is_element(tup_tree[0], 'ERROR'):
             # Operation failed
             err = tup_tree[0]
             code = int(err[1]['CODE'])
@@ -2350,7 +2363,7 @@ class WBEMConnection:  # pylint: disable=too-many-instance-attributes
         # Convert optional RETURNVALUE into a Python object
         returnvalue = None
 
-        if tup_tree and tup_tree[0][0] == 'RETURNVALUE':
+        if tup_tree and _is_element(tup_tree[0], 'RETURNVALUE'):
 
             # The PARAMTYPE attribute is optional in the DTD
             returnvalue = typed_value(tup_tree[0][2],
@@ -2515,7 +2528,7 @@ class WBEMConnection:  # pylint: disable=too-many-instance-attributes
         # return type.
 
         # Check for failed operation
-        if tup_tree and tup_tree[0][0] == 'ERROR':
+        if tup_tree and _is_element(tup_tree[0], 'ERROR'):
             # The operation failed
             err = tup_tree[0]
             code = int(err[1]['CODE'])
@@ -2870,7 +2883,7 @@ class WBEMConnection:  # pylint: disable=too-many-instance-attributes
                 if isinstance(p[2], str):
                     enumeration_context = p[2]
 
-            elif p[0] == "IRETURNVALUE":
+            elif _is_element(p, 'IRETURNVALUE'):
                 rtn_objects = p[2]
                 if exp_class is not None:
                     for obj in rtn_objects:
